@@ -122,7 +122,86 @@ func c07Tier(tier string) int {
 	return 12000
 }
 
+// two different types that print alike (reflect: "mon.c07box"): one an ordinary struct, one a Stack alias
+func c07PlainBox() any {
+	type c07box struct{ n int }
+	return c07box{7}
+}
+
+func c07AliasBox(s stackage.Stack) any {
+	type c07box stackage.Stack
+	return c07box(s)
+}
+
+// c07Special: shapes a random tree never has. (a) a level with very many descendable members (around 2^8, 2^12, 2^16);
+// (b) two types of one printed name, a leaf struct and a Stack alias, met in either order. Traverse against the stepwise
+// descent the test itself performs on the values it built.
+func c07Special(c *core.Ctx, idx int) {
+	r := c.Rng
+	if idx%2 == 0 {
+		w := []int{255, 256, 257, 4095, 4096, 4097, 65535, 65536, 65537}[r.Intn(9)]
+		root := stackage.And()
+		members := make([]any, w)
+		for i := range members {
+			if i%5 == 4 {
+				members[i] = stackage.Cond("k", stackage.Eq, stackage.Or().Push(i))
+			} else {
+				members[i] = stackage.Or().Push(i)
+			}
+		}
+		root.Push(members...)
+		if r.Chance(1, 3) {
+			// ... some of them taken out and put back
+			root.Remove(0)
+			root.Insert(members[0], 0)
+			root.Pop()
+			root.Push(members[w-1])
+		}
+		for _, i := range []int{0, 1, w / 2, w - 2, w - 1, r.Intn(w)} {
+			var got any
+			var ok bool
+			if p, msg, site := Guard(func() { got, ok = root.Traverse(i, 0) }); p {
+				c.Violatef("panic:"+site+":wide-level", map[string]any{"width": w}, "Traverse(%d,0) panicked on a level of %d members: %s", i, w, msg)
+				return
+			}
+			if !ok || got != i {
+				c.Violatef("wide-level", map[string]any{"width": w}, "Traverse(%d,0) on a level of %d nested Stacks / Conditions returned (%s,%v); Index then Index finds %d", i, w, Show(got), ok, i)
+				return
+			}
+		}
+		c.Count("special.wide-levels")
+		return
+	}
+	inner := stackage.Or().Push("boxed-leaf")
+	var root stackage.Stack
+	order := "struct-first"
+	if (idx/2)%2 == 0 {
+		root = stackage.And().Push(c07PlainBox(), c07AliasBox(inner))
+		_ = root.String()
+	} else {
+		order = "alias-first"
+		root = stackage.And().Push(c07AliasBox(inner), c07PlainBox())
+		_ = root.String()
+		root.Reverse()
+	}
+	var got, got0 any
+	var ok, ok0 bool
+	if p, msg, site := Guard(func() { got, ok = root.Traverse(1, 0); got0, ok0 = root.Traverse(0, 0) }); p {
+		c.Violatef("panic:"+site+":homonyms", map[string]any{"order": order}, "Traverse panicked on a stack holding a struct and a Stack alias whose types print alike: %s", msg)
+		return
+	}
+	if !ok || got != "boxed-leaf" || ok0 || got0 != nil {
+		c.Violatef("homonyms", map[string]any{"order": order}, "And(struct c07box, alias c07box(Or(\"boxed-leaf\"))): Traverse(1,0)=(%s,%v), expected the leaf; Traverse(0,0)=(%s,%v), expected (nil,false) (%s)", Show(got), ok, Show(got0), ok0, order)
+		return
+	}
+	c.Count("special.homonym-types")
+}
+
 func c07Run(c *core.Ctx, idx int) {
+	if idx%300 == 150 {
+		c07Special(c, idx/300)
+		return
+	}
 	r := c.Rng
 	tree := c07Gen.Gen(r)
 	tree.Walk(func(n *TNode) {
